@@ -38,9 +38,13 @@ var hostT *testing.T
 // case
 
 type Op struct {
-	Kind string `json:"kind"`          // update | advance | settle | waitpub | close
+	Kind string `json:"kind"`          // update | advance | settle | waitpub | close | burst | waitloop
 	Val  int    `json:"val,omitempty"` // update: value id (>= 1)
 	Us   int64  `json:"us,omitempty"`  // advance: virtual microseconds
+	// burst: N Updates with the fresh values Val..Val+N-1 from a goroutine of their own
+	// (the script's later update/burst/close ops wait for it, so there is one updater at a
+	// time); waitloop: N sequential WaitPub calls from a goroutine of their own
+	N int `json:"n,omitempty"`
 }
 
 // Pub is the behaviour of the i-th call of the publish function.
@@ -106,7 +110,10 @@ func gen(t *rapid.T) Case {
 	n := rapid.IntRange(1, 25).Draw(t, "nops")
 	closed := false
 	for i := 0; i < n; i++ {
-		k := rapid.SampledFrom([]string{"update", "update", "update", "update", "advance", "advance", "advance", "settle", "waitpub", "waitpub", "close"}).Draw(t, "kind")
+		k := rapid.SampledFrom([]string{"update", "update", "update", "update", "advance", "advance", "advance", "settle", "waitpub", "waitpub", "close", "burst", "waitloop"}).Draw(t, "kind")
+		if (k == "burst" || k == "waitloop") && (closed || rapid.Bool().Draw(t, "parallel")) {
+			k = "update"
+		}
 		if k == "close" && (closed || rapid.IntRange(0, 2).Draw(t, "reallyclose") > 0) {
 			k = "advance" // keep Close rare and mostly late
 		}
@@ -128,6 +135,13 @@ func gen(t *rapid.T) Case {
 				next++
 			}
 			used = append(used, op.Val)
+		case "burst":
+			op.N = rapid.IntRange(2, 60).Draw(t, "n")
+			op.Val = next
+			next += op.N
+			used = append(used, op.Val+op.N-1)
+		case "waitloop":
+			op.N = rapid.IntRange(2, 30).Draw(t, "n")
 		case "advance":
 			op.Us = rapid.SampledFrom(durations).Draw(t, "us")
 			if op.Us < 1 {
@@ -197,8 +211,13 @@ func execute(c Case) (events []event, hang string) {
 		return -1 // a value that was never handed to the republisher
 	}
 	for _, op := range c.Ops {
-		if op.Kind == "update" {
+		switch op.Kind {
+		case "update":
 			ids[valueCid(op.Val).KeyString()] = op.Val
+		case "burst":
+			for i := 0; i < op.N; i++ {
+				ids[valueCid(op.Val+i).KeyString()] = op.Val + i
+			}
 		}
 	}
 	if c.Initial != 0 {
@@ -267,18 +286,58 @@ func execute(c Case) (events []event, hang string) {
 			}
 		}
 
+		update := func(v int) {
+			rec.add(event{kind: "update", val: v})
+			rp.Update(valueCid(v))
+			rec.add(event{kind: "updated", val: v})
+		}
+		waitpub := func() {
+			rec.mu.Lock()
+			id := nwait
+			nwait++
+			rec.mu.Unlock()
+			rec.add(event{kind: "waitCall", id: id})
+			err := rp.WaitPub(waitCtx)
+			e := event{kind: "waitRet", id: id, ok: err == nil}
+			if err != nil {
+				e.err = err.Error()
+			}
+			rec.add(e)
+		}
+		var updater sync.WaitGroup // the burst goroutine, if one is running
+
 		for _, op := range c.Ops {
 			switch op.Kind {
 			case "update":
-				rec.add(event{kind: "update", val: op.Val})
-				rp.Update(valueCid(op.Val))
+				updater.Wait()
+				update(op.Val)
+			case "burst":
+				updater.Wait()
+				updater.Add(1)
+				go func() {
+					defer updater.Done()
+					for i := 0; i < op.N; i++ {
+						update(op.Val + i)
+					}
+				}()
+			case "waitloop":
+				waiters.Add(1)
+				go func() {
+					defer waiters.Done()
+					for i := 0; i < op.N && waitCtx.Err() == nil; i++ {
+						waitpub()
+					}
+				}()
 			case "advance":
 				time.Sleep(time.Duration(op.Us) * time.Microsecond)
 			case "settle":
 				synctest.Wait()
 			case "waitpub":
+				// the call is logged here, in script order, before the goroutine starts
+				rec.mu.Lock()
 				id := nwait
 				nwait++
+				rec.mu.Unlock()
 				rec.add(event{kind: "waitCall", id: id})
 				waiters.Add(1)
 				go func() {
@@ -291,6 +350,7 @@ func execute(c Case) (events []event, hang string) {
 					rec.add(e)
 				}()
 			case "close":
+				updater.Wait()
 				if !doClose() {
 					hang = "Close did not return within one hour of virtual time although every publish call had returned"
 				}
@@ -302,6 +362,7 @@ func execute(c Case) (events []event, hang string) {
 		}
 		if hang == "" {
 			// quiescence: all timers fire, all planned failures are retried
+			updater.Wait()
 			time.Sleep(hangLimit)
 			synctest.Wait()
 			rec.add(event{kind: "quiescent"})
@@ -374,12 +435,14 @@ func run(c Case) kit.Result {
 		return kit.Fail("%s\nlog:\n%s", fmt.Sprintf(format, a...), dump(events))
 	}
 
-	issued := 0       // number of Update calls begun so far
-	last := c.Initial // value of the last successful publish (or the initial value)
-	sIdx := 0         // smallest index consistent with the successful publishes so far
-	inFlight := -1    // call index of a publish function call in progress
+	returned := 0                          // number of Update calls that have returned so far
+	issueAt, retAt := []int{-1}, []int{-1} // event index of the begin / return of Update #k (k >= 1)
+	issued := 0                            // number of Update calls begun so far
+	last := c.Initial                      // value of the last successful publish (or the initial value)
+	sIdx := 0                              // smallest index consistent with the successful publishes so far
+	inFlight := -1                         // call index of a publish function call in progress
 	lastEndFailed := false
-	type waitInfo struct{ k int }
+	type waitInfo struct{ k, at int }
 	waits := map[int]waitInfo{}
 	closeK, closeCalled, closeReturned := 0, false, false
 	closeExcuse := false
@@ -400,17 +463,21 @@ func run(c Case) kit.Result {
 	}
 	var pubStartAt time.Duration
 
-	for _, e := range events {
+	for idx, e := range events {
 		switch e.kind {
 		case "update":
 			u = append(u, e.val)
 			issued++
+			issueAt, retAt = append(issueAt, idx), append(retAt, len(events))
 			if sawFailure {
 				failThenUpdate = true
 			}
 			if openWaits > 0 {
 				waitOverlapsUpdate = true
 			}
+		case "updated":
+			returned++
+			retAt[returned] = idx
 		case "pubStart":
 			if closeReturned {
 				return fail("the publish function was called after Close had returned")
@@ -459,7 +526,7 @@ func run(c Case) kit.Result {
 				closeExcuse = true
 			}
 		case "waitCall":
-			waits[e.id] = waitInfo{k: issued}
+			waits[e.id] = waitInfo{k: returned, at: idx}
 			openWaits++
 		case "waitRet":
 			openWaits--
@@ -470,12 +537,20 @@ func run(c Case) kit.Result {
 			classes["waitpub:returned"] = true
 			k := waits[e.id].k
 			if k >= 1 && !among(last, k) {
-				return fail("WaitPub #%d returned nil, but update #%d (value %d), handed over before the call, is neither published nor superseded by a published later value: last published value is %d", e.id, k, u[k], last)
+				res := fail("WaitPub #%d returned nil, but update #%d (value %d), handed over before the call, is neither published nor superseded by a published later value: last published value is %d", e.id, k, u[k], last)
+				// signature of known finding UPDATE-WINDOW: an Update call was in progress at
+				// some moment between this WaitPub's call and its return
+				for j := 1; j <= issued; j++ {
+					if issueAt[j] < idx && retAt[j] > waits[e.id].at {
+						res.Known = updateWindow
+					}
+				}
+				return res
 			}
 		case "closeCall":
 			if !closeCalled {
 				closeCalled = true
-				closeK = issued
+				closeK = returned
 				// a publish in progress or a failed publish awaiting its retry can make Close time out
 				closeExcuse = inFlight >= 0 || lastEndFailed
 			}
@@ -531,9 +606,17 @@ func run(c Case) kit.Result {
 	return kit.Result{NonTrivial: failThenUpdate || waitOverlapsUpdate, Classes: cls}
 }
 
+// Known finding UPDATE-WINDOW: Republisher.Update replaces the pending value by draining the
+// one-slot channel and then sending the new value. Between the two steps the channel is
+// empty; a WaitPub (or Close) request served in that window sees nothing pending and returns
+// although the value handed over before it is unpublished and its successor is not published
+// yet either. The signature is exactly that: WaitPub returned early while an Update call was
+// in progress between its call and its return.
+const updateWindow = "UPDATE-WINDOW"
+
 var spec = kit.Spec[Case]{
 	Prop: "C21", Name: "main",
-	Rule:  "real mfs.Republisher in a synctest bubble; short 1-50 ms, long in {short, 3x, 10x, 200 ms, 6 s}; script <=25 of Update (fresh / repeated / earlier values) / advance (boundary durations around short, long and the 5 s close timeout) / settle / WaitPub in its own goroutine / Close; publish plan <=6 of ok / fail / block(+-fail, +-honouring ctx); oracle over the mutex-ordered event log; non-trivial = a publish failure followed by an Update, or an Update issued while a WaitPub is outstanding",
+	Rule:  "real mfs.Republisher in a synctest bubble; short 1-50 ms, long in {short, 3x, 10x, 200 ms, 6 s}; script <=25 of Update (fresh / repeated / earlier values) / burst of 2-60 Updates from a goroutine / loop of 2-30 WaitPubs from a goroutine / advance (boundary durations around short, long and the 5 s close timeout) / settle / WaitPub in its own goroutine / Close; publish plan <=6 of ok / fail / block(+-fail, +-honouring ctx); oracle over the mutex-ordered event log; non-trivial = a publish failure followed by an Update, or an Update issued while a WaitPub is outstanding",
 	Quick: 3000, Thorough: 7500,
 	Gen: gen, Run: run,
 }
